@@ -11,7 +11,7 @@ import (
 func init() {
 	register(&propInfo{
 		ID:          "C12",
-		Explanation: "Value-origin and path analysis of method naming and dispatch: (R12.1) the key under which a handler method is registered is the result of the handler's own configured name formatter applied to (namespace argument, reflected method name); the name a client function sends is its configured formatter's result or, when present, the rpc_method tag; both formatter fields are filled from the respective configuration; the wire request carries exactly that name; (R12.2) in every function resolving a method, the alias table is consulted only after the direct lookup failed, its result is looked up in the method table, and the handler that runs is the one found; (R12.3) a failed parameter decode is tested at once and its failure branch reaches neither another decode nor the handler without an intervening error test; the arity test guards every positional-params path to the handler. (R12.5) the method descriptor is read after name and alias resolution. (R12.6) the only rejections before the handler are unknown name and alias, unsupported channel mode and bad params; (R12.7) an alias is recorded unconditionally.",
+		Explanation: "Value-origin and path analysis of method naming and dispatch: (R12.1) the key under which a handler method is registered is the result of the handler's own configured name formatter applied to (namespace argument, reflected method name); the name a client function sends is its configured formatter's result or, when present, the rpc_method tag; both formatter fields are filled from the respective configuration; the wire request carries exactly that name; (R12.2) in every function resolving a method, the alias table is consulted only after the direct lookup failed, its result is looked up in the method table, and the handler that runs is the one found; (R12.3) a failed parameter decode is tested at once and its failure branch reaches neither another decode nor the handler without an intervening error test; the arity test guards every positional-params path to the handler. (R12.5) the method descriptor is read after name and alias resolution. (R12.6) the only rejections before the handler are unknown name and alias, unsupported channel mode and bad params; (R12.7) an alias is recorded unconditionally. (R12.8) every read of the method table in the dispatcher is a comma-ok lookup.",
 		NotDecided:  "What formatter functions return (string values), namespace non-leakage between namespaces (a consequence of string equality on formatted names), type mismatches detected by encoding/json itself.",
 		Assumptions: []string{"the method table is the map[string]<struct> field of the dispatcher's receiver; the alias table its map[string]string field"},
 		Run:         runC12,
@@ -239,6 +239,9 @@ func runC12(c *Ctx) {
 					if ex, ok := lk.Index.(*ssa.Extract); ok && ex.Tuple == ssa.Value(a) {
 						fromAlias = true
 					}
+					if lk.Index == ssa.Value(a) {
+						fromAlias = true // plain (not comma-ok) alias lookup used as the key
+					}
 					var lv []ssa.Value
 					leaves(lk.Index, map[ssa.Value]bool{}, &lv)
 					for _, l := range lv {
@@ -284,6 +287,9 @@ func runC12(c *Ctx) {
 					}
 				}
 				for _, s2 := range second {
+					if !a.CommaOk && s2.CommaOk {
+						continue // the empty string of a missing alias is looked up and reported as not found by the comma-ok lookup itself
+					}
 					if aok == nil || !condKnown(s2.Block(), aok, true) {
 						okAll = false
 						c.bad("R12.2", construct, c.ipos(s2), "the alias target is looked up although no alias was found")
